@@ -9,6 +9,9 @@
 //!   s -> c  pointer  : member `p<b>: &[C<b>]i32`         s -> s  pointer  : member `p<b>: &S<b>`
 //!   c -> s  pointer  : `|:&S<b>|` in the initialiser
 //! References of one declaration are written in ascending order of the target.
+//! Kind `w` is a word (`W<a>`): its members are an `i8` (if it holds no word) and the words it contains.
+//! HOW a reference is written (Containers.tla: Flavour, a function of the pair) varies: arrays of structures, nested
+//! arrays with a named length, a named length inside a size-of, arrays of pointers, pointers to pointers.
 
 use penne::alpha::common::{Declaration, Expression};
 use penne::alpha::value_type::ValueType as VT;
@@ -56,8 +59,73 @@ impl Graph {
         match self.kind[a - 1] {
             'c' => format!("C{a}"),
             's' => format!("S{a}"),
+            'w' => format!("W{a}"),
             _ => format!("f{a}"),
         }
+    }
+    /// Containers.tla: Flavour(nn, a, b)
+    fn flavour(&self, a: usize, b: usize) -> usize {
+        // modules with a member `&[C]T` (input class of an open finding) are written in flavour 0 throughout
+        if self.ptr.iter().any(|(x, y)| self.kind[x - 1] == 's' && self.kind[y - 1] == 'c') {
+            return 0;
+        }
+        (a + 2 * b + self.n) % 3
+    }
+    /// name of the structure or word b
+    fn sname(&self, b: usize) -> String {
+        if self.kind[b - 1] == 'w' { format!("W{b}") } else { format!("S{b}") }
+    }
+    /// Declared size in bits of word a: the smallest word size that holds the natural layout of its members
+    /// (alignment = size, at most 64 bits); 128 for a word on or above a cycle (the module is rejected anyway).
+    fn word_bits(&self, a: usize, visiting: &mut Vec<usize>) -> Option<usize> {
+        if visiting.contains(&a) {
+            return None;
+        }
+        visiting.push(a);
+        let members: Vec<usize> = self.refs(a).iter().filter(|(_, v)| *v).map(|(b, _)| *b).collect();
+        let mut sizes = Vec::new();
+        if members.is_empty() {
+            sizes.push(8);
+        }
+        let mut ok = true;
+        for b in members {
+            match self.word_bits(b, visiting) {
+                Some(x) => sizes.push(x),
+                None => ok = false,
+            }
+        }
+        visiting.pop();
+        if !ok {
+            return None;
+        }
+        let (mut off, mut maxal) = (0usize, 8usize);
+        for sz in sizes {
+            let al = sz.min(64);
+            off = off.div_ceil(al) * al + sz;
+            maxal = maxal.max(al);
+        }
+        let total = off.div_ceil(maxal) * maxal;
+        [8usize, 16, 32, 64, 128].into_iter().find(|w| *w >= total)
+    }
+    /// does the natural layout of every word that is on no cycle fit into 128 bits?
+    pub fn words_fit(&self) -> bool {
+        let cyclic = |g: &Graph, a: usize| {
+            // a word reaches itself through words
+            let mut seen = vec![a];
+            let mut stack: Vec<usize> = g.refs(a).iter().map(|(b, _)| *b).collect();
+            while let Some(b) = stack.pop() {
+                if b == a {
+                    return true;
+                }
+                if !seen.contains(&b) {
+                    seen.push(b);
+                    stack.extend(g.refs(b).iter().map(|(c, _)| *c));
+                }
+            }
+            false
+        };
+        (1..=self.n).all(|a| self.kind[a - 1] != 'w' || self.word_bits(a, &mut Vec::new()).is_some() || cyclic(self, a)
+            || self.refs(a).iter().any(|(b, _)| self.word_bits(*b, &mut Vec::new()).is_none()))
     }
     /// (target, by_value) of declaration a in ascending order of the target
     fn refs(&self, a: usize) -> Vec<(usize, bool)> {
@@ -76,10 +144,17 @@ impl Graph {
                     s.push_str(" + |:&i32| - 8");
                 }
                 for (b, by_value) in self.refs(a) {
-                    match (self.kind[b - 1], by_value) {
-                        ('c', _) => s.push_str(&format!(" + C{b}")),
-                        ('s', true) => s.push_str(&format!(" + |:S{b}|")),
-                        ('s', false) => s.push_str(&format!(" + |:&S{b}|")),
+                    let sb = self.sname(b);
+                    match (self.kind[b - 1], by_value, self.flavour(a, b)) {
+                        ('c', _, 0) => s.push_str(&format!(" + C{b}")),
+                        ('c', _, 1) => s.push_str(&format!(" + |:[C{b}]u8|")),
+                        ('c', _, _) => s.push_str(&format!(" + (C{b} * 1)")),
+                        ('s' | 'w', true, 0) => s.push_str(&format!(" + |:{sb}|")),
+                        ('s' | 'w', true, 1) => s.push_str(&format!(" + |:[2]{sb}|")),
+                        ('s' | 'w', true, _) => s.push_str(&format!(" + |:[2][2]{sb}|")),
+                        ('s' | 'w', false, 0) => s.push_str(&format!(" + |:&{sb}|")),
+                        ('s' | 'w', false, 1) => s.push_str(&format!(" + |:[2]&{sb}|")),
+                        ('s' | 'w', false, _) => s.push_str(&format!(" + |:&[2]{sb}|")),
                         _ => panic!("edge to a function"),
                     }
                 }
@@ -89,13 +164,33 @@ impl Graph {
             's' => {
                 let mut s = format!("struct S{a} {{ m0: i32,");
                 for (b, by_value) in self.refs(a) {
-                    match (self.kind[b - 1], by_value) {
-                        ('c', true) => s.push_str(&format!(" v{b}: [C{b}]i32,")),
-                        ('c', false) => s.push_str(&format!(" p{b}: &[C{b}]i32,")),
-                        ('s', true) => s.push_str(&format!(" v{b}: S{b},")),
-                        ('s', false) => s.push_str(&format!(" p{b}: &S{b},")),
+                    let sb = self.sname(b);
+                    match (self.kind[b - 1], by_value, self.flavour(a, b)) {
+                        ('c', true, 0) => s.push_str(&format!(" v{b}: [C{b}]i32,")),
+                        ('c', true, 1) => s.push_str(&format!(" v{b}: [2][C{b}]i32,")),
+                        ('c', true, _) => s.push_str(&format!(" v{b}: [C{b}][2]u8,")),
+                        ('c', false, _) => s.push_str(&format!(" p{b}: &[C{b}]i32,")),
+                        ('s' | 'w', true, 0) => s.push_str(&format!(" v{b}: {sb},")),
+                        ('s' | 'w', true, 1) => s.push_str(&format!(" v{b}: [2]{sb},")),
+                        ('s' | 'w', true, _) => s.push_str(&format!(" v{b}: [1][2]{sb},")),
+                        ('s' | 'w', false, 0) => s.push_str(&format!(" p{b}: &{sb},")),
+                        ('s' | 'w', false, 1) => s.push_str(&format!(" p{b}: [2]&{sb},")),
+                        ('s' | 'w', false, _) => s.push_str(&format!(" p{b}: &&{sb},")),
                         _ => panic!("edge to a function"),
                     }
+                }
+                s.push_str(" }");
+                s
+            }
+            'w' => {
+                let bits = self.word_bits(a, &mut Vec::new()).unwrap_or(128);
+                let mut s = format!("word{bits} W{a} {{");
+                let members: Vec<usize> = self.refs(a).iter().filter(|(_, v)| *v).map(|(b, _)| *b).collect();
+                if members.is_empty() {
+                    s.push_str(" m0: i8,");
+                }
+                for b in members {
+                    s.push_str(&format!(" v{b}: W{b},"));
                 }
                 s.push_str(" }");
                 s
@@ -162,6 +257,15 @@ fn expr_refs(e: &Expression, out: &mut Vec<(String, bool)>) -> Result<(), String
                 expr_refs(x, out)?;
             }
         }
+        // a structure literal in the value of a constant: its type and the values of its members
+        Expression::Structural { members, structural_type, .. } => {
+            if let Ok(t) = structural_type {
+                type_refs(t, false, out)?;
+            }
+            for m in members {
+                expr_refs(&m.expression, out)?;
+            }
+        }
         other => return Err(format!("projection does not cover {other:?}")),
     }
     Ok(())
@@ -181,7 +285,8 @@ pub fn project(source: &str) -> Result<Graph, String> {
                 }
                 names.push((name.name.clone(), 'c', refs));
             }
-            Declaration::Structure { name, members, .. } => {
+            Declaration::Structure { name, members, structural_type, .. } => {
+                let is_word = matches!(structural_type, Ok(VT::Word { .. }));
                 let mut refs = Vec::new();
                 for m in members {
                     match &m.value_type {
@@ -189,7 +294,7 @@ pub fn project(source: &str) -> Result<Graph, String> {
                         Err(_) => return Err("poisoned member type".to_string()),
                     }
                 }
-                names.push((name.name.clone(), 's', refs));
+                names.push((name.name.clone(), if is_word { 'w' } else { 's' }, refs));
             }
             Declaration::Function { name, .. } | Declaration::FunctionHead { name, .. } => {
                 names.push((name.name.clone(), 'f', Vec::new()));
@@ -234,6 +339,53 @@ pub fn project(source: &str) -> Result<Graph, String> {
 pub fn random(rng: &mut Rng, max_n: usize) -> Graph {
     let n = rng.range(2, max_n);
     let kind: Vec<char> = (0..n).map(|_| *rng.pick(&['c', 'c', 's', 's', 's', 'f'])).collect();
+    let g = random_with(rng, n, kind);
+    // Every fourth graph (decided by a generator of its own, after the draws of the graph) is drawn again with words
+    // among the kinds, or as a long chain with a few extra references (dependency chains of up to max_n + 2).
+    let mut extra = Rng::new(rng.next(), 0xC11A_5EED);
+    match extra.below(8) {
+        0 => {
+            let kind: Vec<char> = (0..n).map(|_| *extra.pick(&['c', 's', 's', 'w', 'w', 'w', 'f'])).collect();
+            for _ in 0..20 {
+                let g2 = random_with(&mut extra, n, kind.clone());
+                if g2.words_fit() {
+                    return g2;
+                }
+            }
+            g
+        }
+        1 => {
+            let n = max_n + 2;
+            let kind: Vec<char> = (0..n).map(|_| *extra.pick(&['c', 's'])).collect();
+            let mut order: Vec<usize> = (1..=n).collect();
+            for i in (1..n).rev() {
+                order.swap(i, extra.below(i + 1));
+            }
+            let mut val: Vec<(usize, usize)> = order.windows(2).map(|w| (w[0], w[1])).collect();
+            let mut ptr = Vec::new();
+            for _ in 0..extra.below(4) {
+                let (x, y) = (extra.below(n), extra.below(n));
+                // forward along the chain (diamonds), rarely backward (a cycle)
+                if x < y || extra.chance(15) {
+                    let p = (order[x], order[y]);
+                    if !val.contains(&p) {
+                        if kind[p.0 - 1] == 's' && kind[p.1 - 1] == 's' && extra.chance(30) { ptr.push(p) } else { val.push(p) }
+                    }
+                }
+            }
+            val.sort();
+            ptr.sort();
+            let mut perm: Vec<usize> = (1..=n).collect();
+            for i in (1..n).rev() {
+                perm.swap(i, extra.below(i + 1));
+            }
+            Graph { n, kind, val, ptr, perm }
+        }
+        _ => g,
+    }
+}
+
+fn random_with(rng: &mut Rng, n: usize, kind: Vec<char>) -> Graph {
     // a hidden layering makes most graphs acyclic; "back" edges are rare
     let mut rank: Vec<usize> = (1..=n).collect();
     for i in (1..n).rev() {
@@ -245,7 +397,7 @@ pub fn random(rng: &mut Rng, max_n: usize) -> Graph {
     let mut ptr = Vec::new();
     for a in 1..=n {
         for b in 1..=n {
-            if kind[a - 1] == 'f' || kind[b - 1] == 'f' {
+            if kind[a - 1] == 'f' || kind[b - 1] == 'f' || (kind[a - 1] == 'w' && kind[b - 1] != 'w') {
                 continue;
             }
             let forward = rank[a - 1] > rank[b - 1];
